@@ -282,6 +282,26 @@ theorem other_aliases_no_sign :
     simp [processStep, standardizeStep, POLAR_SYMBOLS, POLAR_ALIASES, VALIDATORS_POLAR_SYMBOLS,
       VALIDATORS_POLAR_ALIASES, aliasTarget]
 
+/-- **the alias loop bodies are the translated source**: one iteration of the key/value loop of each of the three
+implementations — translated from the source by evaluating the body for every symbol, every alias and a generic
+other key, for `None` and for a number — equals the step function of the hand model the `defocus_alias_*`
+theorems are stated for, for EVERY key, value and accumulated dict.  (The plumbing around the loops — key
+validation, recursion into nested dicts, max-order zero fill, float32 conversion — stays hand-modelled.) -/
+theorem alias_steps_are_translated (out : List (String × ℝ)) (k : String) (v : Option ℝ) :
+    standardize_aberration_coefs_step out k v = standardizeStep POLAR_SYMBOLS POLAR_ALIASES out k v ∧
+    validate_aberration_coefficients_step out k v
+      = .ok (processStep VALIDATORS_POLAR_SYMBOLS VALIDATORS_POLAR_ALIASES out k v) ∧
+    probe_params_setter_step out k v = .ok (processStep POLAR_SYMBOLS POLAR_ALIASES out k v) :=
+  ⟨standardize_step_translated out k v, validate_step_translated out k v, probe_params_step_translated out k v⟩
+
+/-- **the sign of `defocus` in the source itself**: in all three translated loop bodies `defocus = x` stores
+C10 = −x. -/
+theorem defocus_sign_in_source (out : List (String × ℝ)) (x : ℝ) :
+    standardize_aberration_coefs_step out "defocus" (some x) = .ok (dset out "C10" (-x)) ∧
+    validate_aberration_coefficients_step out "defocus" (some x) = .ok (dset out "C10" (-x)) ∧
+    probe_params_setter_step out "defocus" (some x) = .ok (dset out "C10" (-x)) :=
+  ⟨rfl, rfl, rfl⟩
+
 /-! ### fitting defocus, astigmatism and rotation from shifts -/
 
 /-- for quadratic aberrations the lateral shifts `∇χ_code/(2π)` are the linear map
